@@ -134,12 +134,12 @@ import re as _re
 _MODE_UNIT = {'cbc': 'cbc', 'pcbc': 'pcbc', 'ige': 'ige', 'cfb': 'cfb', 'cfb8': 'cfb8', 'ofb': 'ofb', 'cfbbuf': 'cfb',
               'ctr': 'ctr', 'belt': 'belt', 'cts': 'cts'}
 _MODE_PROPS = {
-    'cbc': ['C02', 'C01', 'C07', 'C12', 'C09'], 'pcbc': ['C02', 'C01', 'C07', 'C12', 'C09'], 'ige': ['C02', 'C01', 'C07', 'C12', 'C09'],
-    'cfb': ['C03', 'C01', 'C07', 'C12', 'C14'], 'cfb8': ['C03', 'C01', 'C07', 'C12', 'C08', 'C09'], 'ofb': ['C03', 'C01', 'C07', 'C12', 'C14', 'C09'],
-    'cfbbuf': ['C03', 'C08', 'C13', 'C14', 'C09', 'C01'],
-    'ctr': ['C04', 'C01', 'C07', 'C08', 'C10', 'C12', 'C14'],
+    'cbc': ['C02', 'C01', 'C07', 'C12', 'C09', 'C15'], 'pcbc': ['C02', 'C01', 'C07', 'C12', 'C09', 'C15'], 'ige': ['C02', 'C01', 'C07', 'C12', 'C09', 'C15'],
+    'cfb': ['C03', 'C01', 'C07', 'C12', 'C14', 'C15'], 'cfb8': ['C03', 'C01', 'C07', 'C12', 'C08', 'C09', 'C15'], 'ofb': ['C03', 'C01', 'C07', 'C12', 'C14', 'C09', 'C15'],
+    'cfbbuf': ['C03', 'C08', 'C13', 'C14', 'C09', 'C01', 'C15'],
+    'ctr': ['C04', 'C01', 'C07', 'C08', 'C10', 'C12', 'C14', 'C15'],
     'cts': ['C05', 'C01', 'C12', 'C13', 'C14'],
-    'belt': ['C06', 'C01', 'C07', 'C08', 'C10', 'C12'],
+    'belt': ['C06', 'C01', 'C07', 'C08', 'C10', 'C12', 'C15'],
 }
 
 
